@@ -10,6 +10,9 @@
 //! STEEL_INLINE_RECURSIVE, STEEL_CLOSURE_LIFTING, STEEL_MODULE_INLINE from the environment of this process
 //! (every compilation / closure construction calls std::env::var), so checks/c02.py starts one child per
 //! configuration.  `c02 env` prints the five switches as this process sees them.
+//! A piece that runs longer than C02_PIECE_LIMIT_MS (default 12000) ends the process with exit code 87 (native
+//! code that never returns cannot be interrupted from inside): the driver records a crash for that program
+//! and runs the rest of its chunk in a new child.
 use std::io::{Read, Write};
 use std::panic::{catch_unwind, AssertUnwindSafe};
 
@@ -51,6 +54,19 @@ fn main() {
         return;
     }
     std::panic::set_hook(Box::new(|_| {}));
+    let limit_ms: u64 = std::env::var("C02_PIECE_LIMIT_MS").ok().and_then(|v| v.parse().ok()).unwrap_or(12000);
+    // start of the running piece in ms since process start (0 = no piece running)
+    static PIECE_START: std::sync::atomic::AtomicU64 = std::sync::atomic::AtomicU64::new(0);
+    let t0 = std::time::Instant::now();
+    std::thread::spawn(move || loop {
+        std::thread::sleep(std::time::Duration::from_millis(100));
+        let st = PIECE_START.load(std::sync::atomic::Ordering::SeqCst);
+        if st != 0 && (t0.elapsed().as_millis() as u64) > st + limit_ms {
+            std::io::stdout().flush().ok();
+            eprintln!("c02: piece exceeded the time limit of {} ms", limit_ms);
+            std::process::exit(87);
+        }
+    });
     let mut panicked = false;
     for prog in src.split("\n;;;===\n") {
         if prog.trim().is_empty() {
@@ -75,7 +91,9 @@ fn main() {
         };
         for piece in prog.split("\n;;;---\n") {
             let piece = piece.to_string();
+            PIECE_START.store(t0.elapsed().as_millis() as u64 + 1, std::sync::atomic::Ordering::SeqCst);
             let r = catch_unwind(AssertUnwindSafe(|| engine.compile_and_run_raw_program(piece)));
+            PIECE_START.store(0, std::sync::atomic::Ordering::SeqCst);
             std::io::stdout().flush().ok();
             match r {
                 Ok(Ok(vals)) => {
